@@ -328,6 +328,22 @@ func analyseRunCommand(fset *token.FileSet, fd *ast.FuncDecl, F *rcFacts, note f
 			}
 		}
 	}
+	// the parameters reach exec.Command / cmd.Dir as they were passed: no statement reassigns them
+	ast.Inspect(fd.Body, func(n ast.Node) bool {
+		if a, ok := n.(*ast.AssignStmt); ok {
+			for _, l := range a.Lhs {
+				switch identName(l) {
+				case argsP:
+					F.argvPassed = false
+					note("the %s parameter is reassigned: %s", argsP, exprStr(fset, a))
+				case dirP:
+					F.dirSet = false
+					note("the %s parameter is reassigned: %s", dirP, exprStr(fset, a))
+				}
+			}
+		}
+		return true
+	})
 	// every assignment to a field of the command other than Stdout/Stderr/Dir, anywhere in the body
 	ast.Inspect(fd.Body, func(n ast.Node) bool {
 		if a, ok := n.(*ast.AssignStmt); ok {
